@@ -135,7 +135,7 @@ func vfC13Gen(rt *rapid.T) vfC13Case {
 			return op
 		}
 	})
-	c.Ops = rapid.SliceOfN(opGen, 1, 50).Draw(rt, "ops")
+	c.Ops = vfListOf(rt, "ops", opGen, 1, 50)
 	var q []float32
 	if kind == Cosine {
 		q = g.drawNonZero(rt, "q")
@@ -198,6 +198,7 @@ func vfProbeSets(dists []float32, p int, maxSets int) (sets [][]int, union []int
 func vfTierThorough() bool { return vfEnv("VERIF_TIER") == "thorough" }
 
 func vfC13Run(c vfC13Case, ctx *vfCtx) *vfViolation {
+	ctx.HistoryLen("history", len(c.Ops))
 	kind := DistanceKind(c.Metric)
 	idx, err := NewIVFIndex(c.Dim, c.NList, kind)
 	if err != nil {
